@@ -86,6 +86,27 @@ impl<'tcx> Cx<'tcx> {
                         val = esc(&bytes.iter().map(|b| format!("{:02x}", b)).collect::<String>());
                     }
                 }
+                if val == "null" {
+                    // `&[u8; N]` constants (e.g. the byte template of format_args!) are a pointer into an allocation
+                    if let Const::Val(ConstValue::Scalar(rustc_middle::mir::interpret::Scalar::Ptr(ptr, _)), cty) = c.const_ {
+                        if let ty::Ref(_, inner, _) = cty.kind() {
+                            if let ty::Array(elem, _) = inner.kind() {
+                                if elem.is_integral() {
+                                    let (prov, off) = ptr.prov_and_relative_offset();
+                                    if let rustc_middle::mir::interpret::GlobalAlloc::Memory(alloc) = self.tcx.global_alloc(prov.alloc_id()) {
+                                        let a = alloc.inner();
+                                        let start = off.bytes() as usize;
+                                        let end = a.len();
+                                        if start <= end && end - start < 4096 {
+                                            let bytes = a.inspect_with_uninit_and_ptr_outside_interpreter(start..end);
+                                            val = esc(&bytes.iter().map(|b| format!("{:02x}", b)).collect::<String>());
+                                        }
+                                    }
+                                }
+                            }
+                        }
+                    }
+                }
                 let fndef = if let ty::FnDef(d, _) = ty.kind() { esc(&self.tcx.def_path_str(*d)) } else { "null".into() };
                 let cdbg = if val == "null" && fndef == "null" { esc(&format!("{:?}", c.const_).chars().take(160).collect::<String>()) } else { "null".into() };
                 format!("{{\"op\":\"const\",\"ty\":{},\"val\":{},\"fn\":{},\"cdbg\":{}}}", esc(&ty.to_string()), val, fndef, cdbg)
@@ -191,7 +212,14 @@ impl rustc_driver::Callbacks for Cb {
                             Rvalue::UnaryOp(op, a) => format!("{{\"rv\":\"un\",\"uop\":{},\"a\":{}}}", esc(&format!("{:?}", op)), cx.operand(a)),
                             Rvalue::Ref(_, bk, p) => format!("{{\"rv\":\"ref\",\"mut\":{},\"place\":{}}}", matches!(bk, BorrowKind::Mut{..}), cx.place(p)),
                             Rvalue::RawPtr(_, p) => format!("{{\"rv\":\"rawptr\",\"place\":{}}}", cx.place(p)),
-                            Rvalue::Discriminant(p) => format!("{{\"rv\":\"discr\",\"place\":{}}}", cx.place(p)),
+                            Rvalue::Discriminant(p) => {
+                                let pty = p.ty(body, tcx).ty;
+                                let vs: Vec<String> = match pty.kind() {
+                                    ty::Adt(adt, _) if adt.is_enum() => adt.variants().iter().map(|v| esc(v.name.as_str())).collect(),
+                                    _ => vec![],
+                                };
+                                format!("{{\"rv\":\"discr\",\"place\":{},\"enum\":{},\"variants\":[{}]}}", cx.place(p), esc(&pty.to_string()), vs.join(","))
+                            }
                             Rvalue::Cast(k, o, t) => format!("{{\"rv\":\"cast\",\"kind\":{},\"a\":{},\"to\":{}}}", esc(&format!("{:?}", k)), cx.operand(o), esc(&t.to_string())),
                             Rvalue::Aggregate(k, ops) => {
                                 let mut names: Vec<String> = vec![];
